@@ -226,6 +226,11 @@ func (c *SyncMap) Restore(r io.Reader) (int, error) {
 			return n, err
 		}
 
+		// Restored expirations have to be collected by delete expired job, even with UnlimitedTTL.
+		if e.E != 0 {
+			atomic.AddInt64(&c.t.expirationsSet, 1)
+		}
+
 		c.data.Store(string(e.K), &e)
 
 		n++
